@@ -39,7 +39,8 @@ MCNames3 == <<"a", "b", "c">>
 NameSet == {Names[i] : i \in 1..Len(Names)}
 BuiltinIndex == 7
 
-NewTab(block) == [block |-> block, store |-> [n \in NameSet |-> 0], numDef |-> 0, maxDef |-> 0, free |-> <<>>]
+\* (TLCEval: a concrete function value, not a lazily evaluated one - TLC cannot spill the latter to its disk queue)
+NewTab(block) == [block |-> block, store |-> TLCEval([n \in NameSet |-> 0]), numDef |-> 0, maxDef |-> 0, free |-> <<>>]
 
 Init == /\ tabs = <<NewTab(FALSE)>>
         /\ syms = <<>>
@@ -91,7 +92,7 @@ ResolveR(T, S, t, name, recur) ==
 
 (* what a caller can see of a symbol *)
 Obs(S, sid) == [name |-> S[sid].name, scope |-> S[sid].scope, index |-> S[sid].index, assigned |-> S[sid].assigned]
-FreeObs(T, S, t) == [i \in 1..Len(T[t].free) |-> Obs(S, T[t].free[i])]
+FreeObs(T, S, t) == TLCEval([i \in 1..Len(T[t].free) |-> Obs(S, T[t].free[i])])
 TabObs(T, S) == [max |-> T[Len(T)].maxDef, free |-> FreeObs(T, S, Len(T)), global |-> IsGlobalLevel(T, Len(T))]
 
 Call(op, args, ret, T, S) ==
